@@ -381,6 +381,6 @@ def run_log(case):
 
 SUBS = [
     Sub(name='api-histories', kind='machine', run=run_log, machine=lambda tier: TrajMachine,
-        rule='RuleBasedStateMachine over a pool of <=8 live trajectories: 16 kinds of read-only query (values compared with the model), filter (str/list/tuple), slices with any start/stop/step incl. negative, split (equal or not), in-place extend (also self-extension); model agreement checked non-invasively after every step and through the public API at the end',
+        rule='RuleBasedStateMachine over a pool of <=8 live trajectories: 20 kinds of read-only query (values compared with the model; incl. shape analysis of the trajectory as a supercell, free energy, all metrics, the site / jumps / collective pipeline), filter (str/list/tuple), slices with any start/stop/step incl. negative, split (equal or not), in-place extend (also self-extension); model agreement checked non-invasively after every step and through the public API at the end',
         n={'quick': 40, 'thorough': 700}, shards={'quick': 8, 'thorough': 16}, steps={'quick': 30, 'thorough': 50}),
 ]
